@@ -1,7 +1,7 @@
 (** C19 proofs: the Loc computed by the lexer is the functional specification of its byte
     offset; emitted spans are ordered; make_span's asserts hold; merging is sound;
     refutations for the u16 limits and the escape/split-identifier arithmetic. *)
-From Coq Require Import List NArith Bool Lia.
+From Coq Require Import List NArith Bool Lia PeanoNat.
 From UV Require Import Model.Lex.
 Import ListNotations.
 Open Scope N_scope.
@@ -488,7 +488,7 @@ Lemma guard_cur_bound M cs : forall cur, forallb (fun l => nlen l <=? M) (guard_
 Proof.
   induction cs as [|c r IH]; intros cur H; cbn [guard_lines] in H.
   - destruct cur as [|x cur']; [cbn; lia|]. cbn [forallb] in H. rewrite andb_true_r in H. apply N.leb_le in H.
-    unfold nlen in *. rewrite rev_length in H. pose proof (filter_len_le notcr (x :: cur')). lia.
+    unfold nlen in *. rewrite rev_length in H. pose proof (strip_cr_len (x :: cur')). lia.
   - destruct (is_nl c).
     + cbn [forallb] in H. apply andb_prop in H. destruct H as [H _]. apply N.leb_le in H.
       unfold nlen in *. rewrite rev_length in H. pose proof (strip_cr_len cur). lia.
@@ -583,13 +583,13 @@ Qed.
 Lemma pre_witnesses_rejected : accepted long_line = false /\ accepted many_lines = false.
 Proof. split; vm_compute; reflexivity. Qed.
 
-(** the arithmetic of the split-identifier path (lex.rs:1437-1453) is applied to the text AFTER
+(** BEFORE d7485e2: the arithmetic of the split-identifier path (lex.rs:1437-1453 at 54c7366) is applied to the text AFTER
     escape replacement: `\\pi` is four one-byte segments, the identifier text is "π"
     (1 char, 2 bytes), so the Pi token ends at (byte 2, char 1, col 2) although byte 2 is
     char 2, col 3 — and the two bytes "pi" are in no token. *)
 Definition esc_pi : input := [seg_a; seg_a; seg_a; seg_a].
 Definition esc_pi_acts : list action := [AConsume; AConsume; AConsume; AConsume; ASplit 4 [] (1, 2) false].
-Theorem escape_split_refuted :
+Theorem escape_split_refuted_pre :
   exists i acts, fits32 i /\ disc (run i acts) = true /\ asserts (run i acts) = true /\
     exists t, In t (toks (run i acts)) /\ loc_of_prefix i (byte_pos (snd t)) <> Some (snd t).
 Proof.
@@ -631,3 +631,62 @@ Proof. exists out_long_line. split; vm_compute; reflexivity. Qed.
 Theorem end_loc_saturation_refuted :
   exists cs, col (end_loc true cs) = 65535 /\ col (end_loc true cs) <> out_true_col cs.
 Proof. exists out_long_line. split; vm_compute; [reflexivity | discriminate]. Qed.
+
+(** BEFORE d7485e2, combining mark: "r" + U+0301 is ONE segment of 2 chars / 3 bytes; `lowercase`
+    was "r" (1 char, 1 byte), so a token ended at (byte 1, char 1), inside the segment. *)
+Definition comb_r : input := [[(1, COther); (2, COther)]].
+Theorem combining_split_refuted_pre :
+  exists i acts, fits32 i /\ disc (run i acts) = true /\
+    exists t, In t (toks (run i acts)) /\ loc_of_prefix i (byte_pos (snd t)) = None.
+Proof.
+  exists comb_r, [AConsume; ASplit 1 [] (1, 1) true]. split; [split; vm_compute; discriminate|].
+  split; [vm_compute; reflexivity|].
+  exists (loc0, mkLoc 1 2 1 1). split; vm_compute; auto.
+Qed.
+
+(** * The split-identifier path of the current code (d7485e2): tokens are pairs of earlier
+      values of self.loc, i.e. the primitive action sequence [split_actions] *)
+Lemma split_emits_free ends : forall prev, split_free (fst (split_emits prev ends)) = true.
+Proof.
+  induction ends as [|j r IH]; intros prev; cbn [split_emits]; [reflexivity|].
+  specialize (IH j). destruct (split_emits j r) as [a last]. cbn [fst] in *. cbn. exact IH.
+Qed.
+
+Lemma split_free_app a b : split_free (a ++ b) = split_free a && split_free b.
+Proof. unfold split_free. apply forallb_app. Qed.
+
+Lemma split_actions_free i0 ends c rest : split_free (split_actions i0 ends c rest) = true.
+Proof.
+  unfold split_actions. pose proof (split_emits_free ends i0) as H.
+  destruct (split_emits i0 ends) as [a last]. cbn [fst] in H. rewrite split_free_app, H.
+  destruct rest; reflexivity.
+Qed.
+
+(** every token of a split identifier (and everything before it) is a valid span of the
+    original text: both ends are the specified Loc of a segment boundary, start <= end *)
+Theorem split_tokens_valid i pre i0 ends c rest se : fits32 i -> fits16 i -> split_free pre = true ->
+  disc (run i (pre ++ split_actions i0 ends c rest)) = true ->
+  In se (toks (run i (pre ++ split_actions i0 ends c rest))) -> valid_span i se.
+Proof.
+  intros H32 H16 Hp Hd Hin. apply (lexer_spans_valid i (pre ++ split_actions i0 ends c rest)); auto.
+  rewrite split_free_app, Hp, split_actions_free. reflexivity.
+Qed.
+
+Corollary split_tokens_valid_guarded i pre i0 ends c rest se : fits32 i -> accepted i = true -> split_free pre = true ->
+  disc (run i (pre ++ split_actions i0 ends c rest)) = true ->
+  In se (toks (run i (pre ++ split_actions i0 ends c rest))) -> valid_span i se.
+Proof. intros H32 Ha. apply split_tokens_valid; auto. apply guard_excludes_saturation. assumption. Qed.
+
+(** the former failing inputs under the current code: `\\pi` is one Pi token over all four
+    bytes; "r" + U+0301 is one identifier token over the whole segment *)
+Theorem escape_split_current :
+  let acts := [AConsume; AConsume; AConsume; AConsume] ++ split_actions 4 [0%nat] 0 false in
+  disc (run esc_pi acts) = true /\ asserts (run esc_pi acts) = true /\
+  toks (run esc_pi acts) = [(loc0, mkLoc 1 5 4 4)] /\ forallb (span_ok esc_pi) (toks (run esc_pi acts)) = true.
+Proof. vm_compute. repeat split. Qed.
+Theorem combining_split_current :
+  let acts := [AConsume] ++ split_actions 1 [] 0 true in
+  disc (run comb_r acts) = true /\ toks (run comb_r acts) = [(loc0, mkLoc 1 3 3 1)] /\
+  forallb (span_ok comb_r) (toks (run comb_r acts)) = true.
+Proof. vm_compute. repeat split. Qed.
+
